@@ -1,8 +1,10 @@
 (** Non-vacuity: the premises [widths_ok] and [key_ok] are satisfiable -- the four limb configurations,
     the handbook key (11, 17) (p<q and p>q) and a pair of 32-bit primes whose product has 64 bits (p>q) / and a
     pair whose product has 63 bits.  Primality of the concrete numbers is established by a verified
-    trial-division checker run in the kernel ([vm_compute]); this limits the Examples to primes of about
-    32 bits (key-sized primes would need a Pocklington-style certificate checker, which is not developed here). *)
+    trial-division checker run in the kernel ([vm_compute]), which limits THESE Examples to primes of about
+    32 bits; Proofs/PaillierPrimes.v adds a Pocklington certificate checker and pairs of 64-bit primes.
+    (Primality of the key-sized primes used by the harness is NOT certified: they come from num-bigint-dig's
+    probabilistic test.) *)
 From Coq Require Import ZArith Znumtheory Lia List.
 From SL Require Import Lib.Base Model.Paillier.
 Local Open Scope Z_scope.
